@@ -85,6 +85,11 @@ C11_Step(w1, e, w2, o2) ==
   /\ (Len(w1.legacy) > 0 /\ Committed(e, "hub", "update_params")) => w2.hubPar.paused          \* cannot unpause over legacy entries
   /\ (Len(w2.legacy) > 0 /\ ~(e.tx.k = "set_legacy")) => w2.hubPar.paused \/ ~w1.hubPar.paused
   /\ Committed(e, "hub", "update_params") => w2 = [w1 EXCEPT !.hubPar = w2.hubPar]               \* pausing alters nothing else
+  /\ Committed(e, "hub", "update_params") =>                                                     \* ... and no parameter the message omits
+        LET m == e.tx.msg p1 == w1.hubPar p2 == w2.hubPar IN
+        /\ (m.epoch = NoneInt => p2.epoch = p1.epoch) /\ (m.unbonding = NoneInt => p2.unbonding = p1.unbonding)
+        /\ (m.fee = NoneDec => p2.fee = p1.fee) /\ (m.thr = NoneDec => p2.thr = p1.thr) /\ (m.rdenom = "" => p2.rdenom = p1.rdenom)
+        /\ p2.denom = p1.denom
   /\ Committed(e, "hub", "migrate_unbond_wait_list") =>
         /\ w1.hubPar.paused
         /\ w2 = [w1 EXCEPT !.wait = w2.wait, !.legacy = w2.legacy, !.hubPar.paused = w2.hubPar.paused]
@@ -224,6 +229,15 @@ TokStep(w1, e, w2, c) ==
   /\ (t2.supply < t1.supply /\ ~IsProbe(e)) =>
         /\ e.ok /\ (ExecIs(e, c, "burn") \/ ExecIs(e, c, "burn_from") \/ FxWasm(e, "hub", c, "burn"))
         /\ (c = "stsei" \/ ExecIs(e, c, "burn_from")) => FxWasm(e, c, "hub", "check_slashing")
+  /\ (Committed(e, c, "increase_allowance") /\ sp \in Accts /\ m.spender \in Accts) =>          \* a top-up adds exactly the amount and keeps the
+        LET old == t1.allow[sp][m.spender] IN                                                     \* expiration unless a new one is given
+        t2.allow[sp][m.spender] = [has |-> TRUE, amt |-> old.amt + m.amount, exp |-> IF m.expires.k # "none" THEN m.expires ELSE old.exp]
+  /\ (Committed(e, c, "decrease_allowance") /\ sp \in Accts /\ m.spender \in Accts) =>
+        LET old == t1.allow[sp][m.spender] IN
+        /\ old.has
+        /\ t2.allow[sp][m.spender] = IF m.amount < old.amt
+                                      THEN [has |-> TRUE, amt |-> old.amt - m.amount, exp |-> IF m.expires.k # "none" THEN m.expires ELSE old.exp]
+                                      ELSE NoAllow
   /\ \A o \in Accts, s \in Accts :                                  \* allowances change only by their owner or by use
         (t2.allow[o][s] # t1.allow[o][s] /\ ~IsProbe(e)) =>
             e.ok /\ IsExecEv(e) /\ TopTx(e).c = c
@@ -268,7 +282,13 @@ C19_Step(w1, e, w2, o1, o2) == C19_Delivers(w1, e, w2, o1, o2) /\ C19_Executes(w
 \* C20 - stored parameters stay within their valid ranges under any update sequence
 C20_InRange(w0) == DecLe(w0.hubPar.fee, One) /\ DecLe(w0.hubPar.thr, One) /\ DecLe(w0.disp.rate, One)
 Keep(omitted, new, old) == omitted => new = old
+\* an update whose value is out of range is rejected, whatever else the message carries (committed or dry run)
+C20_OutOfRangeRejected(e) ==
+  /\ (e.ok /\ ExecIs(e, "hub", "update_params")) => (TopTx(e).msg.fee = NoneDec \/ DecLe(TopTx(e).msg.fee, One))
+  /\ (e.ok /\ ExecIs(e, "dispatcher", "update_config")) => (TopTx(e).msg.krp_keeper_rate = NoneDec \/ DecLe(TopTx(e).msg.krp_keeper_rate, One))
+  /\ (e.ok /\ ExecIs(e, "dispatcher", "update_config")) => TopTx(e).msg.stsei_reward_denom = ""
 C20_Step(w1, e, w2) ==
+  /\ C20_OutOfRangeRejected(e)
   /\ ~(e.tx.k = "instantiate") => (w2.hubPar.denom = w1.hubPar.denom /\ w2.disp.stDenom = w1.disp.stDenom)
   /\ (~e.ok \/ IsProbe(e)) => w2 = w1
   /\ Committed(e, "hub", "update_params") =>
